@@ -446,6 +446,16 @@ def apply_model(interp, st, t, b, record):
                 elif stag <= frozenset(["Err", "None"]):
                     st.tags["L%d" % dl] = frozenset(["Break"]) if nm.endswith("Try::branch") else _fail_names(nm)
         return
+    if nm == "std::ops::FromResidual::from_residual":
+        # `?` on the failure side: the value built is the failure variant of the function's return type
+        dt = fresh_dest()
+        if dt and dest is not None:
+            ty = interp.place_ty(dest) or ""
+            if "result::Result<" in ty or ty.startswith("Result<") or "::Result<" in ty:
+                st.tags[dt] = frozenset(["Err"])
+            elif "option::Option<" in ty or ty.startswith("Option<"):
+                st.tags[dt] = frozenset(["None"])
+        return
     if nm in ("std::option::Option::<T>::is_some", "std::option::Option::<T>::is_none", "std::result::Result::<T, E>::is_ok", "std::result::Result::<T, E>::is_err"):
         src = referent(interp, st, args[0])
         fresh_dest(0, 1)
